@@ -74,6 +74,8 @@ for kind, rel in sorted(plan):
     if kind in ("new", "copy"):
         os.makedirs(os.path.dirname(dst), exist_ok=True)
         shutil.copy2(src, dst)
+    elif kind == "merge" and rel == "harness/translate.py":
+        print(sh(f"/verif/tools/merge_translate.py {src}").stdout)
     elif kind == "merge":
         with tempfile.NamedTemporaryFile(delete=False) as tb:
             tb.write(base_content(rel))
